@@ -80,7 +80,7 @@ vf_rb_wf(const r_buf_t *r) {
 	 * (contiguous unless RBUF_F_FRAG), the last one ends at wpos */
 	n = vf_rb_ncommitted(r);
 	end = 0;
-	for (i = 0; i < VF_RB_IOVN && i < n; i ++) {
+	for (i = 0; i < n; i ++) {
 		if (!vf_rb_inside(r, r->iov[i].iov_base, r->iov[i].iov_len))
 			return (0);
 		off = VF_RB_OFF(r, r->iov[i].iov_base);
@@ -102,9 +102,7 @@ vf_rb_wf(const r_buf_t *r) {
 		return (r->iov_index_max <= r->iov_index);
 	/* remnants of the previous round: inside, >= min_block_size, address ordered */
 	end = 0;
-	for (i = 1; i < VF_RB_IOVN; i ++) {
-		if (i <= r->iov_index || i > r->iov_index_max)
-			continue;
+	for (i = r->iov_index + 1; i <= r->iov_index_max; i ++) {
 		if (!vf_rb_inside(r, r->iov[i].iov_base, r->iov[i].iov_len))
 			return (0);
 		off = VF_RB_OFF(r, r->iov[i].iov_base);
